@@ -6,6 +6,7 @@ import torch
 from hypothesis import strategies as st
 
 from ..core import Sub
+from . import _batch
 from ..gens import DTYPES, build_primary, fl, primary_spec, seed_s
 
 PROPERTY_ID = "C18"
@@ -199,6 +200,14 @@ def known_k3_hedger(case, v):
 KNOWN = {"K3": known_k3, "K3-hedger": known_k3_hedger}
 
 
+def _k3_single(name, point, dtype):
+    """the lookback delta of a single element is itself NaN inside the K3 region: nothing to compare a batch with"""
+    if name != "lookback_delta":
+        return False
+    dt = DTYPES[dtype]
+    return bool((torch.tensor(point["v"], dtype=dt) * torch.tensor(point["t"], dtype=dt).sqrt()).pow(3).item() == 0.0)
+
+
 # ------------------------------------------------------------------ rejection of negative arguments
 @st.composite
 def negative_case(draw):
@@ -357,6 +366,12 @@ SUBS = [
         rule="BlackScholes / WhalleyWilmott(a in {0.1,1,10}) hedger x 4 option types x 6 stock models with default and stressed parameters x "
              "strikes ITM/ATM/OTM x costs {0,1e-4,1e-2} x 8..200 paths x 2..30 steps. Non-trivial: some path ends within 1% of the strike.",
         strategy=lambda tier: hedger_case(), examples={"quick": 1600, "thorough": 16000}),
+    Sub("mixed_batches", lambda case, ctx: _batch.check_batch(case, ctx, _batch.PRICES + _batch.DELTAS + ["lookback_delta"], "C18", skip=_k3_single),
+        rule="2..7 points per call, boundary points (t or v exactly 0 or tiny) mixed with interior points, log-moneyness incl. exact 0, running "
+             "maximum on both sides of the strike, as vector / column / matrix: every price and delta at an element of the batch must equal the "
+             "value of that element evaluated alone (which boundary_grid and C07 tie to the payoff / the expectation). Non-trivial: the batch "
+             "mixes boundary and interior elements or hit and not-hit barriers.",
+        strategy=lambda tier: _batch.batch_case(boundary=True), examples={"quick": 1500, "thorough": 15000}),
     Sub("k3_demo", check_k3_hedger_demo, rule="fixed demonstration input for known finding K3 (only run through its committed replay)",
         enumerate=lambda tier: [], exhaustive=False),
 ]
